@@ -36,7 +36,9 @@ TStrict ==
     \/ n = "prefill" /\ Adopt(Ev.st) /\ netHead' = Ev.netHead
                      /\ UNCHANGED <<now, peers, trusted, phase, ongoing, hsub, sawPeer, lastFetch>>
     \/ n = "mark"    /\ MarkSampled(Ev.h) /\ Observed(Ev.st)
-    \/ n = "prune"   /\ Prune(Ev.h) /\ Observed(Ev.st)
+    \* a removal injected *inside* fetch_next_batch (race = 1) is logged together with the header-sub message that
+    \* triggered the section: its own snapshot already shows that message's insert, so only the next event is observed
+    \/ n = "prune"   /\ Prune(Ev.h) /\ (IF "race" \in DOMAIN Ev THEN subj' = subj ELSE Observed(Ev.st))
     \/ n = "connect" /\ Connect /\ Observed(Ev.st)
     \/ n = "disconnect" /\ Disconnect /\ Observed(Ev.st)
     \/ n = "plainjoin" /\ PlainJoin /\ Observed(Ev.st)
